@@ -180,6 +180,21 @@ Definition startup_ops_env (s : st) (vals : list envval) (cur : str -> option N)
            (rehash : list (str * option N)) : list op :=
   startup_ops s (rescan_env_steps vals cur s) rehash.
 
+(* ---- the values of tracked variables in the input digest -------------------------------------
+   A step's command runs in Executor.base_env = os.environ overlaid with the director's infra_env
+   (SOURCE_DATE_EPOCH with --fix-epoch, STEPUP_ROOT, STEPUP_BUILD_LOG_LEVEL, ...), then the step's
+   overrides and the reserved names.  The input digest records, for every tracked variable, the value
+   taken from a source: 1 = base_env, 2 = os.environ.  The digest of the skip / validate check
+   (gen_digest_env_source_check) and the digest stored after a run (gen_digest_env_source_stored)
+   must read the same source, or a step that tracks an injected variable never passes its check. *)
+Definition env_lookup (src : N) (os_env infra : str -> option N) (name : str) : option N :=
+  match src with
+  | 1 => match infra name with Some v => Some v | None => os_env name end
+  | _ => os_env name
+  end.
+Definition digest_env (src : N) (os_env infra : str -> option N) (names : list str) : list (str * option N) :=
+  map (fun n => (n, env_lookup src os_env infra n)) names.
+
 (* DirectorHandler.start_build_phase + the commit of Watcher.run_once *)
 Definition failed_attached (s : st) : list str :=
   map sl (filter (fun r => sstate_eqb (sst r) SFailed && attached (KStep, sl r) s) (steps s)).
